@@ -92,6 +92,16 @@ def _norm_value(v, t):
     return v
 
 
+def norm_any(v):
+    """Type-free normalisation: anything that looks like Michelson code (a list of prim nodes) is normalised as code wherever it
+    sits; used only to tell a real value difference from a spelling difference of lambda code under a wrong declared type."""
+    if isinstance(v, list) and v and all(isinstance(x, (dict, list)) for x in v) and any(isinstance(x, dict) and 'prim' in x for x in v):
+        return norm_code(v)
+    if isinstance(v, (list, tuple)):
+        return type(v)(norm_any(x) for x in v)
+    return v
+
+
 def has(t, prim):
     return T.contains(t, prim)
 
@@ -112,6 +122,9 @@ def slot_diff(ms, ps, mode='both'):
         return None
     try:
         if norm_value(mv, mt) != norm_value(pv, mt):
+            if norm_any(mv) == norm_any(pv):
+                ODD_TYPES.append((mt, 'lambda code under a declared type that does not describe it'))
+                return None      # equal up to the spelling of lambda code sitting where the declared type does not expect a lambda
             return 'value', 'value %r, expected %r' % (pv, mv)
     except Exception as e:
         if mv == pv:
